@@ -234,19 +234,11 @@ Proof.
   intros Hin. apply in_map_iff in Hin. destruct Hin as [y [Hy Hin]]. apply Hf in Hy. subst. contradiction.
 Qed.
 
-(* up to 100 operators without identifiers: A_0 .. A_{n-1}, pairwise distinct *)
-Lemma take4_small noise : forallb (fun i => String.eqb (Str.take 4 (default_id noise i)) (default_id noise i)) (seq 0 100) = true.
-Proof. destruct noise; vm_compute; reflexivity. Qed.
-
-Theorem default_ids noise H : all_absent H = true -> length H <= 100 ->
+(* operators without identifiers: A_0 .. A_{n-1} (B_i for noise), pairwise distinct, for every n *)
+Theorem default_ids noise H : all_absent H = true ->
   fill_ids noise H = map (default_id noise) (seq 0 (length H)) /\ NoDup (fill_ids noise H).
 Proof.
-  intros HA HL. unfold fill_ids. rewrite HA.
-  assert (E : map (fun i => Str.take 4 (default_id noise i)) (seq 0 (length H)) = map (default_id noise) (seq 0 (length H))).
-  { apply map_ext_in. intros i Hi. apply in_seq in Hi.
-    pose proof (take4_small noise) as T. rewrite forallb_forall in T.
-    apply String.eqb_eq, T, in_seq. lia. }
-  rewrite E. split; [reflexivity|].
+  intros HA. unfold fill_ids. rewrite HA. split; [reflexivity|].
   apply NoDup_map_inj; [apply default_id_inj | apply seq_NoDup].
 Qed.
 
@@ -256,19 +248,23 @@ Theorem default_ids_filled noise H : all_absent H = false ->
                          (combine (seq 0 (length H)) H).
 Proof. intros HA. unfold fill_ids. rewrite HA. reflexivity. Qed.
 
-(* 101 operators without identifiers: '<U4' cuts A_100 down to A_10 *)
+(* before fix 313e828: 101 operators without identifiers, '<U4' cut A_100 down to A_10 *)
 Definition many_absent (n : nat) : list hentry := map (fun _ => ([], [], IdAbsent)) (seq 0 n).
-Theorem default_ids_refuted :
-  exists ops ids cfs, parse_hamiltonian false 0 (many_absent 101) = Ok (ops, ids, cfs) /\ ~ NoDup ids.
+Theorem default_ids_prefix_refuted :
+  exists ops ids cfs, parse_hamiltonian_prefix false 0 (many_absent 101) = Ok (ops, ids, cfs) /\ ~ NoDup ids.
 Proof.
-  destruct (parse_hamiltonian false 0 (many_absent 101)) as [[[ops ids] cfs]|e] eqn:E.
+  destruct (parse_hamiltonian_prefix false 0 (many_absent 101)) as [[[ops ids] cfs]|e] eqn:E.
   - exists ops, ids, cfs. split; [reflexivity|].
     assert (U : uniqueb ids = false).
-    { assert (X : match parse_hamiltonian false 0 (many_absent 101) with Ok r => uniqueb (snd (fst r)) | Raise _ => true end = false)
+    { assert (X : match parse_hamiltonian_prefix false 0 (many_absent 101) with Ok r => uniqueb (snd (fst r)) | Raise _ => true end = false)
         by (vm_compute; reflexivity).
       rewrite E in X. exact X. }
     intros HN. apply uniqueb_NoDup in HN. congruence.
-  - exfalso. assert (X : match parse_hamiltonian false 0 (many_absent 101) with Ok _ => true | Raise _ => false end = true)
+  - exfalso. assert (X : match parse_hamiltonian_prefix false 0 (many_absent 101) with Ok _ => true | Raise _ => false end = true)
       by (vm_compute; reflexivity).
     rewrite E in X. discriminate.
 Qed.
+(* the same call now: 101 distinct identifiers *)
+Example default_ids_101 :
+  match parse_hamiltonian false 0 (many_absent 101) with Ok r => uniqueb (snd (fst r)) && (length (snd (fst r)) =? 101) | Raise _ => false end = true.
+Proof. vm_compute. reflexivity. Qed.
